@@ -335,6 +335,8 @@ READERS = {
     "C07": [HEX + ".get", HEX + ".exists", HEX + ".traverse", HEX + ".traverse_from", HEX + "._traverse", HEX + "._traverse_from", HEX + ".root_node"],
     # the lookups of C02 / C05 / C06 see the trie, not a memo of it
     "C05": [HEX + ".get", HEX + ".exists", HEX + "._get"],
+    # "every historical root reads back exactly what it held": reads see the database, not a memo of it
+    "C04": [HEX + ".get", HEX + ".exists", HEX + "._get", HEX + ".get_node"],
 }
 
 
